@@ -3,6 +3,7 @@
 //! This module provides Redis-compatible CLIENT commands for
 //! examining and managing client connections.
 
+use crate::storage::commands::RedisInt;
 use std::time::{Duration, SystemTime, UNIX_EPOCH};
 use crate::error::Result;
 use crate::protocol::RespFrame;
@@ -114,7 +115,7 @@ fn handle_client_kill(parts: &[RespFrame], connections: &impl ConnectionProvider
                 _ => return Ok(RespFrame::error("ERR syntax error")),
             };
             
-            let id = match id_str.parse::<u64>() {
+            let id = match id_str.parse_redis::<u64>() {
                 Ok(id) => id,
                 Err(_) => return Ok(RespFrame::error("ERR value is not an integer or out of range")),
             };
@@ -222,7 +223,7 @@ fn handle_client_pause(parts: &[RespFrame], paused_until: Option<&mut SystemTime
     // Extract timeout in milliseconds
     let timeout_ms = match &parts[2] {
         RespFrame::BulkString(Some(bytes)) => {
-            match String::from_utf8_lossy(bytes).parse::<u64>() {
+            match String::from_utf8_lossy(bytes).parse_redis::<u64>() {
                 Ok(ms) => ms,
                 Err(_) => return Ok(RespFrame::error("ERR timeout is not an integer or out of range")),
             }
